@@ -936,7 +936,7 @@ End Calls.
 (* ================================================================================================
    11. records/option_record.py: set_option, remove_option, append_option(_node), prepend_option, replace_option
    as surgery on the children of the record's root.  None = the Python code raises
-   (NoSuchRuleException from _get_key, IndexError from new_children[-1] / children[-1]). *)
+   (NoSuchRuleException from _get_key, IndexError from children[-1] of an empty root). *)
 Section Options.
   Variable r_option r_KEY r_VALUE r_EQUAL r_WS r_NEWLINE : positive.
 
@@ -971,6 +971,13 @@ Section Options.
   Definition ws_token : node := Tok r_WS None [32%N].
   Definition nl_token : node := Tok r_NEWLINE None [10%N].
 
+  (* an option without a VALUE child (node.find('VALUE') is None) is first replaced by _create_option(key, new_value)
+     (1f66dfa); then replace_first(AttrToken('VALUE', new_value)) *)
+  Definition has_value (n : node) : bool :=
+    match n with Tree _ _ ch => existsb (fun c => Pos.eqb (rule_of c) r_VALUE) ch | Tok _ _ _ => false end.
+  Definition set_node (key v : text) (n : node) : node :=
+    replace_first (Tok r_VALUE None v) (if has_value n then n else create_option key (Some v)).
+
   (* the first loop of set_option: None = raised, Some None = no option with that key, Some (Some l) = replaced *)
   Fixpoint set_go (key v : text) (l : list node) : option (option (list node)) :=
     match l with
@@ -980,7 +987,7 @@ Section Options.
           match get_key n with
           | None => None
           | Some k =>
-              if text_eqb k key then Some (Some (replace_first (Tok r_VALUE None v) n :: tl))
+              if text_eqb k key then Some (Some (set_node key v n :: tl))
               else match set_go key v tl with
                    | Some (Some r) => Some (Some (n :: r))
                    | x => x
@@ -1019,7 +1026,7 @@ Section Options.
         match is_target key n with
         | None => None
         | Some true => match acc with
-                       | [] => None                                         (* new_children[-1]: IndexError *)
+                       | [] => remove_go key [] tl                          (* `if new_children and ...` (f53bbd9) *)
                        | a :: acc' => if is_ws_tok a then remove_go key acc' tl else remove_go key acc tl
                        end
         | Some false => remove_go key (n :: acc) tl
